@@ -267,13 +267,17 @@ impl Compactor {
 		guard.commit();
 
 		// After successful manifest commit, cleanup obsolete vlog files and stale index entries
+		// ... unless a reader is open: it may hold the tables just replaced, whose pointers
+		// lead into those files. The clean-up is then left to a later flush or compaction.
 		let min_oldest_vlog = manifest.min_oldest_vlog_file_id();
-		cleanup_vlog_and_index(
-			&self.options.vlog,
-			&self.options.versioned_index,
-			min_oldest_vlog,
-			"compaction",
-		);
+		if self.options.snapshot_tracker.first().is_none() {
+			cleanup_vlog_and_index(
+				&self.options.vlog,
+				&self.options.versioned_index,
+				min_oldest_vlog,
+				"compaction",
+			);
+		}
 
 		Ok(())
 	}
